@@ -36,6 +36,18 @@ CLAIMED = {
         note="Trusted: Lean kernel (propext, Classical.choice, Quot.sound); the harness builds each script together with its item abstraction; mock core + host g++. "
              "Proved counterexample: an LCD/serial/buzzer first declared inside the loop body is not configured (documented placement excludes it).",
         technique="Lean 4 theorems over a model of the emitter's assembly order + model/compiled-sketch correspondence + trace monitors", ref="4/C05"),
+    "C06": dict(
+        text="Lean theorems: the literal the parser writes for ANY string without a raw newline is read back by a C++ string-literal lexer as exactly that string, ending "
+             "at its closing quote (all strings, all continuations; the reversed replace order is proved wrong); for every core-fragment script that reads names only after "
+             "they are bound, the sketch the translation function produces declares every identifier before use, exactly once, with `break` only inside loops; every rendered "
+             "sketch has exactly one setup and one loop opener in that order and balanced braces; included headers = instantiated library classes (C14). Ties: model literal "
+             "vs parser._escape_string_literal and vs bytes printed by the compiled firmware; WF model vs g++ -fsyntax-only on real emissions incl. unbound/out-of-scope reads. "
+             "Oracle: g++ compile+link of every accepted script from a feature pool and a large random generator of the documented style (all devices, every accepted call "
+             "shape, helpers, lists, strings over all printable ASCII, control flow, nested first assignments).",
+        note="Trusted: Lean kernel (propext, Classical.choice, Quot.sound); host g++ gnu++17 + mock Arduino core in place of avr-g++ and the real core/libraries; the C++ type "
+             "system beyond scoping is decided by the compiler run only (partial). Known findings K06a–K06f (loop variable after loop, `except Name`, helper called with int "
+             "and float, helper returning lists of different types, `for e in xs`, literal + literal).",
+        technique="Lean 4 theorems (escape/lexer round-trip by induction, scoping well-formedness of the translation, brace balance) + model/parser and model/compiler correspondence + compiler oracle", ref="4/C06"),
     "C07": dict(
         text="Lean character/line-level model of the parser's layout handling (indentOf, the quote-aware comment stripper, collectBlock, the if/elif/else and try/except "
              "chains, header recognition) against Python's own block rule: the stripper cuts exactly at the first `#` outside a string literal (all lines); blank lines, "
